@@ -3,92 +3,20 @@
    defaults and where clauses (next_const_generic, next_generic, get_all_bounds) and the entry point parse_data. Transcribed branch
    by branch, including what the code does on input it was not written for (a punct consumed while looking for `#`, attribute tokens
    carried over to the next attribute, the early return that skips de-duplication). Field and bound types are parsed by next_type
-   (P/ParseModel.v); printed names (Type::full) are token lists (P/ParsePrintModel.v). Enums are outside this model (Unsup).
+   (P/ParseModel.v); printed names (Type::full) are token lists (P/ParsePrintModel.v). Enums: next_enum with unit, tuple-like and struct-like variants (the latter through the anonymous-struct case of next_type).
    Executable; extracted for the correspondence check. *)
 From Coq Require Import List Arith Bool String.
 Import ListNotations.
 Require Import P.ParseModel P.ParseGrammar P.ParsePrintModel.
 Local Open Scope string_scope. Local Open Scope list_scope.
 
-(* ---- attributes ---- *)
-Inductive atok := AId (s: string) | ALit (l: lit).          (* Attribute.tokens: names and literal values *)
-Definition attr := list atok.                                (* Attribute.name is always "difference" *)
-
-(* the `loop` of next_attribute over the argument group; attrs = finished attributes, cur = attr_tokens *)
-Fixpoint attr_loop (k: nat) (args: list tt) (attrs: list attr) (cur: attr) : res (list attr) :=
-  match k with 0 => Fuel | S k' =>
-  match args with
-  | [] => Ok attrs []                                                    (* next_eof: break; unfinished tokens are dropped *)
-  | TId name :: a1 =>
-      let cur1 := cur ++ [AId name] in
-      match a1 with
-      | [] => Ok (attrs ++ [cur1]) []
-      | TP PComma :: a2 => attr_loop k' a2 (attrs ++ [cur1]) []
-      | _ =>
-          let a2 := match a1 with TP _ :: r => r | _ => a1 end in       (* `=` or any other punct is consumed *)
-          match a2 with
-          | TLit l :: a3 =>
-              let cur2 := cur1 ++ [ALit l] in
-              match a3 with
-              | [] => Ok (attrs ++ [cur2]) []
-              | TP PComma :: a4 => attr_loop k' a4 (attrs ++ [cur2]) []
-              | TP _ :: a4 => attr_loop k' a4 attrs cur2                 (* another punct: consumed, tokens carried over *)
-              | _ => attr_loop k' a3 attrs cur2
-              end
-          | _ => Panic                                                   (* "Expecting argument value" *)
-          end
-      end
-  | _ => Panic                                                           (* "Expecting attribute name" *)
-  end end.
-
-(* None: no attribute here; Some None: a foreign attribute (skipped); Some (Some l): #[difference(...)] *)
-Definition next_attribute (s: list tt) : res (option (option (list attr))) :=
-  match s with
-  | TP PHash :: s1 =>
-      match s1 with
-      | TG _ body :: rest =>
-          match body with
-          | TId name :: b1 =>
-              if name =? "difference" then
-                match b1 with
-                | TG _ args :: _ => bind (attr_loop (S (List.length args)) args [] []) (fun attrs _ => Ok (Some (Some attrs)) rest)
-                | _ => Panic
-                end
-              else Ok (Some None) rest
-          | _ => Panic
-          end
-      | _ => Panic
-      end
-  | TP _ :: s1 => Ok None s1                                             (* next_punct has consumed it *)
-  | _ => Ok None s
-  end.
-
-Fixpoint attrs_list (k: nat) (acc: list attr) (s: list tt) : res (list attr) :=
-  match k with 0 => Fuel | S k' =>
-    bind (next_attribute s) (fun o s1 =>
-      match o with None => Ok acc s1 | Some None => attrs_list k' acc s1 | Some (Some l) => attrs_list k' (acc ++ l) s1 end)
-  end.
-
-Definition next_vis (s: list tt) : list tt :=
-  match s with TId v :: s1 => if v =? "pub" then match s1 with TG Paren _ :: s2 => s2 | _ => s1 end else s | _ => s end.
+(* ---- attributes: attr_loop, next_attribute, attrs_list, next_vis are in P/ParseModel.v (the type parser needs them for struct-like variants) ---- *)
 
 (* ---- fields ---- *)
 Record field := { f_attrs: list attr; f_name: option string; f_ty: ty }.
-
-Fixpoint fields_loop (fuel k: nat) (named: bool) (acc: list field) (s: list tt) : res (list field) :=
-  match k with 0 => Fuel | S k' =>
-  match s with
-  | [] => Ok acc []
-  | _ =>
-    bind (attrs_list (S (List.length s)) [] s) (fun attrs s1 =>
-      let s2 := next_vis s1 in
-      let nm : res (option string) :=
-        if named then match s2 with TId n :: TP PColon :: s3 => Ok (Some n) s3 | _ => Panic end else Ok None s2 in
-      bind nm (fun name s3 =>
-        bind (expect (next_type fuel s3)) (fun t s4 =>
-          let s5 := match s4 with TP _ :: r => r | _ => s4 end in         (* next_punct: the comma, or whatever punct is there *)
-          fields_loop fuel k' named (acc ++ [{| f_attrs := attrs; f_name := name; f_ty := t |}]) s5)))
-  end end.
+Definition field_of (x: list attr * option string * ty) : field := {| f_attrs := fst (fst x); f_name := snd (fst x); f_ty := snd x |}.
+Definition fields_loop (fuel k: nat) (named: bool) (acc: list (list attr * option string * ty)) (s: list tt) : res (list (list attr * option string * ty)) :=
+  fields_nt (next_type fuel) k named acc s.
 
 (* ---- generics ---- *)
 Inductive generic :=
@@ -271,11 +199,11 @@ Definition next_struct (fuel: nat) (s: list tt) : res strukt :=
     match s2 with
     | TG Brace body :: s3 =>
         bind (fields_loop fuel (S (List.length body)) true [] body)
-             (fun fs _ => Ok {| s_name := name; s_named := true; s_fields := fs; s_attrs := []; s_generics := gens |} s3)
+             (fun fs _ => Ok {| s_name := name; s_named := true; s_fields := map field_of fs; s_attrs := []; s_generics := gens |} s3)
     | TG Paren body :: s3 =>
         bind (fields_loop fuel (S (List.length body)) false [] body)
              (fun fs _ => match s3 with
-                          | TP PSemi :: s4 => Ok {| s_name := name; s_named := false; s_fields := fs; s_attrs := []; s_generics := gens |} s4
+                          | TP PSemi :: s4 => Ok {| s_name := name; s_named := false; s_fields := map field_of fs; s_attrs := []; s_generics := gens |} s4
                           | _ => Panic end)
     | TG Bracket _ :: _ => Panic
     | _ =>
@@ -283,7 +211,50 @@ Definition next_struct (fuel: nat) (s: list tt) : res strukt :=
         Ok {| s_name := name; s_named := false; s_fields := []; s_attrs := []; s_generics := gens |} s3
     end).
 
-Definition parse_data (fuel: nat) (s: list tt) : res strukt :=
+(* ---- enums ---- *)
+Record enumt := { e_name: string; e_variants: list field; e_attrs: list attr; e_generics: list generic }.
+
+(* the loop of next_enum over the body: attributes, the variant's name, then its "type": nothing (unit variant), a tuple group or a brace group *)
+Fixpoint variants_loop (fuel k: nat) (acc: list field) (s: list tt) : res (list field) :=
+  match k with 0 => Fuel | S k' =>
+  match s with
+  | [] => Ok acc []
+  | _ =>
+    bind (attrs_list (S (List.length s)) [] s) (fun attrs s1 =>
+      match s1 with
+      | TId vname :: s2 =>
+          (* the end of the body is checked before a type is asked for (repair of D16: next_type answers an empty unnamed type there) *)
+          let tyres := match s2 with [] => Ok None [] | _ => next_type fuel s2 end in
+          bind tyres (fun o s3 =>
+            match o with
+            | None =>
+                let s4 := match s3 with TP PComma :: r => r | _ => s3 end in
+                variants_loop fuel k' (acc ++ [{| f_attrs := attrs; f_name := Some vname; f_ty := Ty CNone None None None |}]) s4
+            | Some t =>
+                let s4 := match s3 with TP PSemi :: r => r | _ => s3 end in
+                let s5 := match s4 with TP PComma :: r => r | _ => s4 end in
+                variants_loop fuel k' (acc ++ [{| f_attrs := attrs; f_name := Some vname; f_ty := t |}]) s5
+            end)
+      | _ => Panic                                                        (* "Unnamed variants are not supported" *)
+      end)
+  end end.
+
+Definition next_enum (fuel: nat) (s: list tt) : res enumt :=
+  match s with
+  | TId name :: s1 =>
+      bind (get_all_bounds fuel s1) (fun gens s2 =>
+        match s2 with
+        | TG _ body :: s3 =>
+            bind (variants_loop fuel (S (List.length body)) [] body)
+                 (fun vs _ => Ok {| e_name := name; e_variants := vs; e_attrs := []; e_generics := gens |} s3)
+        | _ => Ok {| e_name := name; e_variants := []; e_attrs := []; e_generics := [] |} s2      (* no body: the generics are dropped too *)
+        end)
+  | _ => Panic                                                            (* "Unnamed enums are not supported" *)
+  end.
+
+Inductive data := DStruct (s: strukt) | DEnum (e: enumt).
+
+Definition parse_data (fuel: nat) (s: list tt) : res data :=
   bind (attrs_list (S (List.length s)) [] s) (fun attrs s1 =>
     match s1 with
     | TId w :: s2 =>
@@ -292,10 +263,15 @@ Definition parse_data (fuel: nat) (s: list tt) : res strukt :=
           if k =? "struct" then
             bind (next_struct fuel s3) (fun st s4 =>
               match s4 with
-              | [] => Ok {| s_name := s_name st; s_named := s_named st; s_fields := s_fields st; s_attrs := attrs; s_generics := s_generics st |} []
+              | [] => Ok (DStruct {| s_name := s_name st; s_named := s_named st; s_fields := s_fields st; s_attrs := attrs; s_generics := s_generics st |}) []
               | _ => Panic                                                (* "Unexpected data after end of the struct" *)
               end)
-          else if k =? "enum" then Unsup
+          else if k =? "enum" then
+            bind (next_enum fuel s3) (fun en s4 =>
+              match s4 with
+              | [] => Ok (DEnum en) []                                    (* the item's own attributes are NOT handed to the enum *)
+              | _ => Panic
+              end)
           else Panic)
     | _ => Panic                                                          (* "Not an ident" *)
     end).
